@@ -1,6 +1,87 @@
 -------------------------------- MODULE JC14 --------------------------------
-(* C14 — contract of the recorded events of this property (stub).           *)
+(* C14 — every signed division flavour satisfies n = q*d + r with its sign  *)
+(* convention.                                                              *)
+(*                                                                          *)
+(* Event class "sdiv".  Inputs: n (two's-complement pattern, nb bits); d    *)
+(* (db bits: a pattern, or a natural when du = 1); fl = "trunc" | "floor";  *)
+(* rb = width of the returned remainder, ru = 1 when it is returned as an   *)
+(* unsigned integer; oq / or = 1 when the form yields a quotient /          *)
+(* remainder; z = documented zero-divisor class ("none" | "na");            *)
+(* mo = class of a quotient outside [MIN, MAX], i.e. MIN / -1:              *)
+(*   "none"  documented: the quotient is reported as none                   *)
+(*   "panic" the assigning / Wrapping / DivVartime forms `expect` the       *)
+(*           quotient and say nothing about it: a panic is tolerated, and   *)
+(*           so is the wrapped quotient — nothing else                      *)
+(*   "na"    unsigned divisor: cannot happen.                               *)
+(* Outputs: q (nb bits), r (rb bits), qs = is_some of the quotient for the  *)
+(* forms returning (ConstCtOption<q>, r) — there the remainder is returned  *)
+(* (and judged) even when the quotient is none.                             *)
+(*                                                                          *)
+(*   truncating: q = trunc(n/d), sign(r) in {0, sign(n)}                    *)
+(*   flooring:   q = floor(n/d), sign(r) in {0, sign(d)}  (for an unsigned  *)
+(*               divisor this is the normalized remainder in [0, d))        *)
+(*   always:     n = q*d + r and |r| < |d|                                  *)
 EXTENDS BigNat
 
-JudgeC14(e, rg) == FALSE
+LOCAL Has(e, f) == f \in DOMAIN e
+LOCAL Flag(b) == IF b THEN 1 ELSE 0
+
+LOCAL Dividend(e) == SVal(e.n, e.nb)
+LOCAL Divisor(e)  == IF e.du = 1 THEN [neg |-> FALSE, mag |-> e.d] ELSE SVal(e.d, e.db)
+
+(* the mathematical quotient and remainder of the flavour, as <<Q, R>> of signed values *)
+LOCAL TrueQR(e) ==
+  LET n  == Dividend(e)
+      d  == Divisor(e)
+      q0 == Div(n.mag, d.mag)
+      r0 == Mod(n.mag, d.mag)
+      opp == n.neg # d.neg
+  IN IF e.fl = "trunc" THEN << SMk(opp, q0), SMk(n.neg, r0) >>
+     ELSE IF opp /\ r0 # Zero THEN << SMk(TRUE, Add(q0, One)), SMk(d.neg, Sub(d.mag, r0)) >>
+     ELSE << SMk(opp, q0), SMk(d.neg, r0) >>
+
+(* the observed remainder as a signed value *)
+LOCAL ObsR(e) == IF e.ru = 1 THEN [neg |-> FALSE, mag |-> e.r] ELSE SVal(e.r, e.rb)
+
+LOCAL QuotOK(e, Q) == Has(e, "q") => e.q = SEnc(Q, e.nb)
+LOCAL RemOK(e, R) ==
+  Has(e, "r") => IF e.ru = 1 THEN ~R.neg /\ e.r = R.mag
+                 ELSE SFits(R, e.rb) /\ e.r = SEnc(R, e.rb)
+
+(* the property as stated, on the observed outputs *)
+LOCAL Identity(e) ==
+  (Has(e, "q") /\ Has(e, "r")) =>
+     LET n == Dividend(e)
+         d == Divisor(e)
+         q == SVal(e.q, e.nb)
+         r == ObsR(e)
+     IN /\ SAdd(SMul(q, d), r) = n
+        /\ Lt(r.mag, d.mag)
+        /\ r.mag = Zero \/ r.neg = (IF e.fl = "trunc" THEN n.neg ELSE d.neg)
+
+LOCAL JudgeSDiv(e) ==
+  IF Divisor(e).mag = Zero THEN e.z # "na" /\ e.k = e.z           \* none exactly as documented
+  ELSE
+    LET qr    == TrueQR(e)
+        Q     == qr[1]
+        R     == qr[2]
+        qfits == SFits(Q, e.nb)
+        full  == /\ e.k = "ok"
+                 /\ (e.oq = 1) <=> Has(e, "q")
+                 /\ (e.or = 1) <=> Has(e, "r")
+                 /\ QuotOK(e, Q) /\ RemOK(e, R) /\ Identity(e)
+    IN IF Has(e, "qs")                                   \* (ConstCtOption<q>, r)
+         THEN /\ e.k = "ok"
+              /\ e.qs = Flag(qfits)
+              /\ Has(e, "q") <=> (e.qs = 1)
+              /\ Has(e, "r")
+              /\ QuotOK(e, Q) /\ RemOK(e, R) /\ Identity(e)
+       ELSE IF e.oq = 1 /\ ~qfits                        \* MIN / -1 in a form that yields a quotient
+         THEN \/ e.mo = "none" /\ e.k = "none"
+              \/ e.mo = "panic" /\ (e.k = "panic" \/ (e.k = "ok" /\ Has(e, "q") /\ QuotOK(e, Q) /\ RemOK(e, R)))
+       ELSE full
+
+JudgeC14(e, rg) ==
+  CASE e.op = "sdiv" -> JudgeSDiv(e)
+    [] OTHER -> FALSE
 =============================================================================
